@@ -15,6 +15,8 @@ package vm
 // Snapshot / RevertToSnapshot: reverting restores the state version recorded at the
 // snapshot (go-ethereum's journal; trusted).
 //@ ghostvar statever u64
+// ghost work counter (C20): +1 per host state read / host call, +n per n bytes hashed, compared, copied or allocated
+//@ ghostvar work bv128
 
 //@ iface vm.StateDB.GetBalance
 //@   kind purestate
